@@ -127,7 +127,7 @@ def iter_execs(path):
 
 
 def run_harness(bdir, binary, args, programs, workdir, mode='dfs', pb=2, max_exec=20000, seed=0, shards=None,
-                timeout=3600, tag='x'):
+                timeout=3600, tag='x', budget_s=None):
     """Run `binary args` over the program lines, sharded over processes.  Returns raw trace files."""
     os.makedirs(workdir, exist_ok=True)
     pf = os.path.join(workdir, tag + '.programs.txt')
@@ -139,9 +139,13 @@ def run_harness(bdir, binary, args, programs, workdir, mode='dfs', pb=2, max_exe
     for i in range(shards):
         o = os.path.join(workdir, '%s.raw.%d.ndjson' % (tag, i))
         outs.append(o)
+        # wall-clock budget of one plan item: code that hangs (every execution runs into the per-execution time limit) must not
+        # keep a check busy for hours - what was explored until then is judged
+        if budget_s is None:
+            budget_s = 150 if os.environ.get('VERIF_TIER_ACTIVE', 'quick') == 'quick' else 2400
         cmd = [os.path.join(bdir, binary)] + list(args) + ['--programs', pf, '--out', o, '--mode', mode, '--pb', str(pb),
                                                           '--max-exec', str(max_exec), '--seed', str(seed),
-                                                          '--shard', '%d/%d' % (i, shards)]
+                                                          '--shard', '%d/%d' % (i, shards), '--deadline', str(int(time.time()) + budget_s)]
         procs.append(subprocess.Popen(cmd, stdout=subprocess.DEVNULL, stderr=subprocess.PIPE, text=True))
     t0 = time.time()
     for p in procs:
